@@ -79,6 +79,15 @@ class C06(scen.WorldProp):
                         # backstroke start: the Go in backstroke row k leaves the counter armed when
                         # Wheatley stands at the next handstroke
                         spec["start_index"] = rng.choice([1, -1, 3])
+            if first_touch is None and rng.random() < 0.2:
+                # Look To is called twice before anybody has pulled off, a Go in between (somebody too quick off the
+                # mark): the second Look To starts afresh - that Go is forgotten
+                tA = t0 - rng.uniform(0.2, 2.8)
+                if not udi and rng.random() < 0.5:
+                    events = [e for e in events if e[2].get("call") != GO]
+                    go_t = None
+                events = [call(tA, LOOK_TO), call(rng.uniform(tA + 0.05, t0 - 0.05), GO)] + events
+                first_touch = tA
             sc = {"start": 1000.0, "end": end, "tower_size": N, "events": events,
                   "bot": scen.bot_cfg(spec, up_down_in=udi),
                   "rhythm": scen.rhythm_cfg(rng.choice(["wait", "regression"]), inertia=0.5, peal_speed=ps,
